@@ -44,7 +44,7 @@ theorem cStmt_c : ∀ (st : Stmt) (lb : Nat), cgStmt lv st = true → (∀ n ∈
   | .switch hdr cs, lb, hg, hu, env, he => by
     simp only [cgStmt, Bool.and_eq_true, Bool.not_eq_true', decide_eq_true_eq] at hg
     simp only [cStmt, toSrcStmt]
-    exact switch_pm cx fuel env he hdr cs _ hg.1.1.1.1.2 hg.1.1.1.2 (by intro h; rw [h] at hg; simp [Cases.isNil] at hg) hg.1.2
+    exact switch_pm cx fuel env he hdr cs _ hg.1.1.1.2 hg.1.1.2 hg.1.2
       (cCases_c cs lb hdr.name hg.2 (fun n hn => hu n (by simp [mlStmt, mlStmts, mlElifs, mlCases, hn])))
   | .forever body, lb, hg, hu, env, he => by
     simp only [cgStmt, Bool.and_eq_true] at hg
